@@ -14,7 +14,7 @@ ID = 'C13'
 ENGINE = 'E1 full product x E2 histories (write; write)'
 RULE = ("index dtype (8) x pattern {increasing, decreasing, constant, non-monotonic, within tolerance, outside "
         "tolerance, range-wide} x rows {1,2,5} x window x user-supplied {none, index_min, index_max, spacing, "
-        "direction, zero values} (as keywords or through the setters after creation) x index type {none, BOREHOLE-DEPTH, non-standard} given at creation / assigned afterwards / assigned after a first index-less write; histories: second write of the same objects "
+        "direction, zero values} (as keywords or through the setters after creation) x index type {none, BOREHOLE-DEPTH, non-standard} given at creation / assigned afterwards / assigned after a first index-less write; histories: a write after a write that was refused inside the frame set-up; second write of the same objects "
         "with another window / other data / other dtype; expectations by exact arithmetic on Fractions; SPACING of a "
         "nearly uniform index is the median of the differences (the documented rule); NaN-containing indexes and "
         "tolerance-threshold cases are not generated; non-trivial = file written and FRAME attributes compared")
